@@ -400,4 +400,40 @@ theorem sumMinPowerIds_eq (supply : Bool) (ps : List IdPair) (hn : (allIds ps).N
   intro p hp
   exact idPairMinPower_eq supply ps hn p hp
 
+/-! ### iteration order of the battery sets -/
+
+theorem pySum_perm {xs ys : List Rat} (h : xs.Perm ys) : pySum xs = pySum ys := by
+  induction h with
+  | nil => rfl
+  | cons x _ ih => simp only [pySum_cons, ih]
+  | swap x y l => simp only [pySum_cons]; grind
+  | trans _ _ ih1 ih2 => exact ih1.trans ih2
+
+/-- The advertised bounds do not depend on the order in which the battery sets are visited. -/
+theorem advertised_perm {gs gs' : List Group} (h : gs.Perm gs') (hne : GroupsNonempty gs) :
+    advertised gs = advertised gs' := by
+  have hne' : GroupsNonempty gs' := fun g hg => hne g (h.mem_iff.mpr hg)
+  rw [advertised_closed gs hne, advertised_closed gs' hne']
+  have hnil : gs = [] ↔ gs' = [] := by
+    constructor
+    · intro e; subst e; exact h.nil_eq.symm ▸ rfl
+    · intro e; subst e; exact h.symm.nil_eq.symm ▸ rfl
+  by_cases e : gs = []
+  · simp [e, hnil.mp e]
+  · have e' : ¬ gs' = [] := fun x => e (hnil.mpr x)
+    simp only [e, e', if_false]
+    rw [pySum_perm (h.map Group.il), pySum_perm (h.map Group.el), pySum_perm (h.map Group.eu),
+      pySum_perm (h.map Group.iu)]
+
+/-- `_get_bounds` does not depend on the order of the pairs. -/
+theorem getBounds_perm {ps ps' : List (AggregatedBatteryData × List InverterData)} (h : ps.Perm ps') :
+    getBounds ps = getBounds ps' := by
+  unfold getBounds
+  simp only [pySum_flatMap]
+  congr 1
+  · exact pySum_perm (h.map _)
+  · congr 1 <;> exact pySum_perm (h.map _)
+  · congr 1 <;> exact pySum_perm (h.map _)
+  · exact pySum_perm (h.map _)
+
 end PoolBounds
